@@ -531,9 +531,6 @@ func (g *Gen) opMutate(t *Table) []Op {
 			// (effective after ineffective, cancelling, repeated)
 			c = t.Columns[usedList[g.pick(len(usedList))]]
 		}
-		if g.prof.SimpleWhere && g.prof.Name != "samerow" && used[c.Name] {
-			continue // several mutations of one column in one operation are C03/C11's business
-		}
 		if m := g.mutation(c); m != nil {
 			muts = append(muts, m)
 			if !used[c.Name] {
